@@ -11,7 +11,7 @@
 //!    2^-id on both channels and owning a `Parameter<f64>` with `Value::FromListenerDistance`
 //!    (1:1 mapping on [0,16], default 15).  b = 0 binds the track to the id of a listener of
 //!    another manager (same capacity, slot 1, generation 9).  One callback = one chunk of 4 frames.
-//! {"kind":"geo","q":Q,"min":f,"max":f,"att":bool,"ease":k,"s":S,"minc","maxc","tol","obs":[..]}
+//! {"kind":"geo","q":Q,"min":f,"max":f,"att":bool,"ease":k,"s":S,"minc","maxc","tol","side":bool,"obs":[..]}
 //!    one listener, one spatial track, DC source (mono 0.5; stereo (0.5, 0.25) when S = 0);
 //!    obs: {"l":[3],"e":[3],"R":[9],"rel":r,"M":[9],"t":[3]}  coordinates are integers / Q, R the
 //!         listener's rotation matrix (row major); two callbacks after the move, the second is observed
@@ -348,7 +348,7 @@ fn geo_session(sc: &Value, tr: &mut Tracer) {
 		5 => Easing::OutPowf(2.5),
 		_ => Easing::Linear,
 	};
-	tr.reset(json!({"kind": "geo", "q": q, "minc": sc["minc"].as_i64().unwrap_or(0), "maxc": sc["maxc"].as_i64().unwrap_or(0), "att": att, "st": s1000,
+	tr.reset(json!({"kind": "geo", "q": q, "minc": sc["minc"].as_i64().unwrap_or(0), "maxc": sc["maxc"].as_i64().unwrap_or(0), "att": att, "st": s1000, "side": sc["side"].as_bool().unwrap_or(true),
 		"tol": sc["tol"].as_i64().unwrap_or(50), "ease": sc["ease"].as_i64().unwrap_or(0),
 		"cls": sc["cls"].as_str().unwrap_or("")}));
 	let input = if s1000 == 0 { Frame::new(0.5, 0.25) } else { Frame::from_mono(0.5) };
